@@ -1,4 +1,6 @@
 import CatiiProofs.IndxTop
+import CatiiProofs.IndxSaveGen
+import CatiiProofs.IndxLoadGen
 /-!
 # C10 — INDX save then load is the identity
 
@@ -25,6 +27,16 @@ theorem load_of_saved (es : List Entry) (c : Nat) (b : Bytes) (h : save es c = .
   obtain ⟨hs, _⟩ := scope_of_save es c b h
   obtain ⟨b', hb', hl⟩ := save_load_identity es c hs
   rw [h] at hb'; cases hb'; exact hl
+
+/-- **on the programs regenerated from the source**: the reads of the current `IndxIO.load` (`Gen.loadProgram`), run on what the
+writes of the current `IndxIO.save` (`Gen.saveProgram`, with the size `Gen.bufferSizeGen` computes) put into the file, give back the
+entries, the common value and the uint32 row-id word - for every accepted input -/
+theorem generated_save_load_identity (es : List Entry) (c : Nat) (h : InScope es c) :
+    runR Gen.loadProgram (runW ⟨es, c, arityOf es, indexWordSize es c, 4,
+      Gen.bufferSizeGen es.length (arityOf es) (indexWordSize es c) 4 (es.map (·.rowids.length)).sum⟩ Gen.saveProgram)
+      = .ok (es, c, 4) := by
+  rw [runR_loadProgram]
+  exact load_of_saved es c _ (generated_writer_is_save es c h)
 
 /-! Non-vacuity: every width class crossed (coordinate 2^40 with common 3; coordinate 1 with
 common 2^62), an empty row-id list, zero entries. -/
